@@ -433,6 +433,11 @@ func (g *GoFakeS3) deleteBucket(bucket string, w http.ResponseWriter, r *http.Re
 	if err := g.storage.DeleteBucket(bucket); err != nil {
 		return err
 	}
+	if u, ok := g.uploader.(*uploader); ok {
+		// The built-in uploader keeps uploads by bucket name. (A backend that
+		// implements MultipartBackend itself has just seen the DeleteBucket.)
+		u.DeleteBucket(bucket)
+	}
 
 	w.WriteHeader(http.StatusNoContent)
 	return nil
